@@ -144,6 +144,10 @@ def main():
         print(out)
         return 1 if rc else 0
 
+    # solver budgets: sized well above what the obligations need on an idle machine (ms each); an obligation
+    # that exhausts them on every back end is reported undecided (exit 2), never as a violation
+    os.environ.setdefault("VERIF_Z3_TIMEOUT_MS", "15000" if tier == "quick" else "120000")
+    os.environ.setdefault("VERIF_CLI_TIMEOUT_S", "20" if tier == "quick" else "180")
     t0 = time.time()
     records, houdini_log = run_property(pid, tier)
     errors = [r for r in records if r["error"]]
